@@ -12,13 +12,19 @@
       The measure is  (|L|-I) + (|R|-J) + (|join| - |O|),  well-founded because the rows O
       emitted so far are a prefix of the final join (KindOK.Abs_prefix).
 
-   2. `streamed_cnt` is `Join.streamed` instrumented with two counters (number of kernel calls
-      = completed main-loop iterations; total number of executed kernel loop bodies over all
-      calls); it erases to `streamed` (`streamed_cnt_erase`) and, whenever it returns,
-         calls  <= |L|+|R|+|join|      and      kernel steps <= 2(|L|+|R|+|join|) + calls
-      (`streamed_cnt_bound`), via the kernel measure `kmeas`, which telescopes across chunk
-      refills and buffer flushes.  The tail loop (to_left variants) is counted as well:
-      `remaining` steps <= |L| and tail iterations <= |L|. *)
+   2. `streamed_cnt` is `Join.streamed` instrumented with counters (record `counts`: kernel calls
+      = completed main-loop iterations; loop bodies of the *_partial kernel over all calls; loop
+      bodies of the run-length scans inside the general kernel; tail-loop iterations; loop bodies
+      of the *_remaining kernel); it erases to `streamed` (`streamed_cnt_erase`) and, whenever it
+      returns (`streamed_cnt_bound`),
+         calls + tail iterations          <= |L|+|R|+|join|
+         kernel + remaining loop bodies   <= 2(|L|+|R|+|join|) + calls
+         scan loop bodies                 <= |join|
+      The first two via the kernel measure `kmeas`, which telescopes across chunk refills and
+      buffer flushes (a call costs at most 2*progress+1); the third via the potential `phi` = rows
+      the open cartesian block still has to emit (a scan of ci+cj-2 bodies opens a block of ci*cj
+      rows) - a purely syntactic fact about step_gen (`kstep_cnt_cost`), no invariant needed.
+      Not counted: count_back inside get_next_chunk and the slice copies of a chunk fetch. *)
 From Coq Require Import ZArith List Lia Bool ZifyBool.
 From EV Require Import Res Arr Join JoinSpec JoinBase JoinIface JoinDriver.
 Import ListNotations.
